@@ -17,6 +17,8 @@ for line in sys.stdin:
     meta = r.get('meta') or {}
     prop = meta.get('property') or 'C??'
     n = os.path.basename(r['seed'].rstrip('/'))
+    if '/out2-' in r['seed']:
+        n = 'r2-' + n
     dst = '/verif/seeded/%s-%s' % (prop, n)
     os.makedirs(dst, exist_ok=True)
     for f in ('patch.diff', 'demo.py'):
